@@ -28,7 +28,7 @@
 //   coeffs <kind> <n> <lambda> <mu> <recomb> [key=value ...]   strategy constants of the initialised object (compared bit for bit with the
 //        formulas regenerated from the C++, Gen/CMAParams.lean) + admissibility oracle
 //   cmatrace <seed> <steps> <x0 n>   CMA run printing, per step, everything updatePopulation consumed and produced
-//   ecmatrace | cmsatrace | cemtrace <seed> <steps> <x0 n>   same for ElitistCMA::step, CMSA::updatePopulation, CrossEntropyMethod
+//   ecmatrace | cmsatrace | cemtrace | vdcmatrace <seed> <steps> <x0 n>   same for ElitistCMA::step, CMSA::updatePopulation, CrossEntropyMethod, VDCMA::updateStrategyParameters
 //   simplexrun <steps> <x0 n>        the whole SimplexDownhill run (deterministic), re-computed by the model from x0
 //
 // numbers are IEEE-754 bit patterns "x<16 hex digits>".
@@ -659,6 +659,40 @@ static void cemTrace(Config const& cfg, Obj& f, unsigned seed, std::size_t steps
 	}
 }
 
+// VDCMA::step, split exactly as the class does it (createSample, evaluation, selection, counter, updateStrategyParameters)
+static void vdcmaTrace(Config const& cfg, Obj& f, unsigned seed, std::size_t steps, RealVector const& x0, std::ostringstream& out){
+	Holder hold(cfg); VDCMA& m = static_cast<VDCMA&>(*hold.o);
+	seedRun(hold, seed, 1);
+	initOpt(cfg, m, f, x0);
+	typedef Individual<RealVector, double, RealVector> Ind;
+	out << "trace n=" << f.n << " lambda=" << m.m_lambda << " mu=" << m.m_mu;
+	auto state = [&](){
+		std::ostringstream os;
+		os << " M=" << hexVec(m.m_mean) << " PC=" << hexVec(m.m_evolutionPathC) << " PS=" << hexVec(m.m_evolutionPathSigma)
+		   << " D=" << hexVec(m.m_D) << " VN=" << hexVec(m.m_vn) << " NV=" << hexd(m.m_normv);
+		return os.str();
+	};
+	for(std::size_t s = 0; s != steps; ++s){
+		std::vector<Ind> off(m.m_lambda);
+		PenalizingEvaluator ev;
+		for(std::size_t i = 0; i != off.size(); ++i) m.createSample(off[i].searchPoint(), off[i].chromosome());
+		ev(f, off.begin(), off.end());
+		out << " | S=" << hexd(m.m_sigma) << "," << m.m_counter << state() << " F=";
+		for(std::size_t i = 0; i != off.size(); ++i){ if(i) out << ","; out << hexd(off[i].unpenalizedFitness()); }
+		out << " X=";
+		for(std::size_t i = 0; i != off.size(); ++i){ if(i) out << ","; out << hexVec(off[i].searchPoint()); }
+		out << " Y=";
+		for(std::size_t i = 0; i != off.size(); ++i){ if(i) out << ","; out << hexVec(off[i].chromosome()); }
+		std::vector<Ind> parents(m.m_mu);
+		ElitistSelection<Ind::FitnessOrdering> selection;
+		selection(off.begin(), off.end(), parents.begin(), parents.end());
+		m.m_counter++;
+		m.updateStrategyParameters(parents);
+		// (m_best is protected in the base class, which is included before the access hack: the reported pair is what step() assigns)
+		out << " > S=" << hexd(m.m_sigma) << state() << " BP=" << hexVec(parents[0].searchPoint()) << " BV=" << hexd(parents[0].unpenalizedFitness());
+	}
+}
+
 static void simplexRun(Config const& cfg, Obj& f, std::size_t steps, RealVector const& x0, std::ostringstream& out){
 	SimplexDownhill m;
 	callInit(m, f, x0, cfg.kind == "simplex" ? cfg.initMode() : "point");
@@ -757,13 +791,14 @@ int main(){
 				if(std::isfinite(target) && !(a.vals.back() <= target)) out << " !oracle not-converged " << a.vals.back();
 			}else if(t[0] == "coeffs"){
 				coeffsOp(t, out);
-			}else if(t[0] == "ecmatrace" || t[0] == "cmsatrace" || t[0] == "cemtrace"){
+			}else if(t[0] == "ecmatrace" || t[0] == "cmsatrace" || t[0] == "cemtrace" || t[0] == "vdcmatrace"){
 				unsigned seed = (unsigned)std::stoul(t.at(1)); std::size_t steps = std::stoul(t.at(2));
 				if(t.size() != 3 + f->n) throw std::runtime_error("bad-op");
 				RealVector x0(f->n);
 				for(std::size_t k = 0; k != f->n; ++k) x0(k) = bits2d(t[3+k]);
 				if(t[0] == "ecmatrace") ecmaTrace(cfg, *f, seed, steps, x0, out);
 				else if(t[0] == "cmsatrace") cmsaTrace(cfg, *f, seed, steps, x0, out);
+				else if(t[0] == "vdcmatrace") vdcmaTrace(cfg, *f, seed, steps, x0, out);
 				else cemTrace(cfg, *f, seed, steps, x0, out);
 			}else if(t[0] == "simplexrun"){
 				std::size_t steps = std::stoul(t.at(1));
